@@ -103,3 +103,84 @@ def validate_traces(ctx, tdir, limit=None):
                 ev = lines[consumed + 1] if 0 <= consumed + 1 < len(lines) else "(end of trace)"
                 bad.append((p, consumed, total, ev, lines[max(1, consumed - 8):consumed + 1], lines[0]))
     return ok, bad, files
+
+
+def schedule_replay(ctx, cases, binary, n_graphs, per_graph, seed_offset=2000, label="b3"):
+    """B3: TLC-chosen interleavings forced onto the real binary.
+
+    For a seeded sample of multi-generation graphs the protocol constants are written by the engine; TLC simulates
+    OwSimSched.tla (the eager behaviours of OwSim, as hook-event sequences) `per_graph` times per graph; the verif
+    build of ow-sim runs each graph once per schedule with its hooks acting as gates ($OWSIM_SCHEDULE), its result
+    is compared with the sequential reference and its event log is validated against TraceOwSim.tla.  A run whose
+    goroutines cannot follow the schedule ends with exit status 97 and is counted as not realised (no verdict)."""
+    base = os.path.join(ctx.scratch, label)
+    cdir, sdir, tdir = os.path.join(base, "cfg"), os.path.join(base, "sched"), os.path.join(base, "traces")
+    for d in (cdir, sdir, tdir):
+        os.makedirs(d)
+    env = {"VERIF_SEED": str(ctx.seed + seed_offset)}
+    rc, out, err = run_vh(ctx, ["owsim", cases, binary, workdir(ctx), "-sample", str(n_graphs), "-options", "basic", "-configs", cdir],
+                          timeout=600, env_extra=env)
+    if rc != 0:
+        raise Infra("owsim engine (-configs) failed: " + err[-1500:])
+    cfgs = sorted(f for f in os.listdir(cdir) if f.startswith("cfg_"))
+    if not cfgs:
+        raise Infra("no multi-generation graph in the sample")
+
+    def gen(fn):
+        ci = fn[len("cfg_"):-len(".json")]
+        r = ctx.tlc("OwSimSched", cfg="OwSimSched.cfg", workers=1, timeout=300, simulate="num=%d" % per_graph, depth=2000,
+                    seed=ctx.seed + int(ci), files=[("config.ndjson", open(os.path.join(cdir, fn)).read())])
+        k = 0
+        seen = set()
+        for ln in r.lines():
+            if ln.startswith('"{'):
+                doc = json.loads(json.loads(ln))
+                key = json.dumps(doc["schedule"])
+                if key in seen:
+                    continue
+                seen.add(key)
+                with open(os.path.join(sdir, "sched_%s_%d.ndjson" % (ci, k)), "w") as f:
+                    for e in doc["schedule"]:
+                        f.write(json.dumps(e) + "\n")
+                k += 1
+        if "Error" in (r.stdout or "") and "violated" in (r.stdout or ""):
+            raise Infra("OwSimSched violates an OwSim invariant (specification error):\n" + r.tail(2000))
+        return k
+    with concurrent.futures.ThreadPoolExecutor(max_workers=8) as ex:
+        nsched = sum(ex.map(gen, cfgs))
+    if nsched == 0:
+        raise Infra("OwSimSched produced no schedule")
+    s = run_engine(ctx, cases, binary, ["-sample", str(n_graphs), "-options", "basic", "-workers", "16", "-trace", tdir, "-schedules", sdir],
+                   seed_offset=seed_offset)
+    unreal = [m for m in s["mismatches"] if m["kind"] == "schedule-unrealised"]
+    n_unreal = s["extra"]["fail_kinds"].get("schedule-unrealised/default", 0)
+    real = [m for m in s["mismatches"] if m["kind"] != "schedule-unrealised"]
+    for m in real:
+        ctx.report({"kind": m["kind"], "option": "scheduled"}, "ow-sim under a TLC-chosen schedule: %s" % m["detail"][:1500], m)
+    # traces of the realised runs: must be behaviours of OwSim AND follow the schedule event by event
+    ok, bad, files = validate_traces(ctx, tdir)
+    followed = 0
+    for p in files:
+        b = os.path.basename(p)[len("trace_"):-len(".ndjson")]
+        ci, k = b.split("_")
+        sched_files = sorted(f for f in os.listdir(sdir) if f.startswith("sched_%s_" % ci))
+        if int(k) >= len(sched_files):
+            continue
+        want = [json.loads(x) for x in open(os.path.join(sdir, sched_files[int(k)])) if x.strip()]
+        got = [json.loads(x) for x in open(p).read().splitlines()[1:] if x.strip()]
+        got = [{kk: vv for kk, vv in e.items() if kk != "seq"} for e in got if e.get("ev") not in ("load", "purge")]
+        if got == want:
+            followed += 1
+    for p, consumed, total, ev, before, cfg in bad[:5]:
+        ctx.report({"kind": "trace-rejected", "option": "scheduled"},
+                   "event log of a scheduled ow-sim run is not a behaviour of OwSim: event #%d %s; preceding: %s; config %s"
+                   % (consumed + 1, ev, before, cfg[:400]), {"event": ev, "preceding": before, "config": cfg})
+    ctx.cov["evaluations"] += s["evaluations"]
+    ctx.cov["traces_validated_against_impl"] += ok
+    ctx.notes[label] = {"graphs": len(cfgs), "schedules": nsched, "runs": s["evaluations"], "not_realised": n_unreal,
+                        "followed_event_by_event": followed, "traces_accepted": ok, "traces_rejected": len(bad),
+                        "not_realised_sample": [m["detail"][:200] for m in unreal[:2]]}
+    if s["evaluations"] and followed * 2 < s["evaluations"]:
+        raise Infra("fewer than half of the TLC-chosen schedules were followed by the real binary (%d of %d): the gate or OwSimSched is out of step"
+                    % (followed, s["evaluations"]))
+    return ctx.notes[label]
